@@ -126,6 +126,21 @@ func c07Property(t *rapid.T) {
 			f.fail("X: block %d not executed: %v", h+1, err)
 		}
 		rs := checkExecuted(x.N, h, b, f)
+		if viewed {
+			// a view depends on committed state only: what the node's long-lived view ledger answers after this block
+			// (it served the read-only execution above, failed calls included) is what a fresh view ledger answers
+			var probes, probes2 []pb.Transaction
+			for _, s := range b.txs {
+				probes = append(probes, cloneTx(s.tx))
+				probes2 = append(probes2, cloneTx(s.tx))
+			}
+			got, want := x.N.View(probes...), x.N.FreshView(probes2...)
+			for i := range want {
+				if i < len(got) && (got[i].Status != want[i].Status || string(got[i].Ret) != string(want[i].Ret)) {
+					f.fail("read-only execution of %s after block %d answers %v %.80q on the node's view ledger and %v %.80q on a fresh one: an earlier read-only execution left something behind", b.txs[i].desc, h+1, got[i].Status, got[i].Ret, want[i].Status, want[i].Ret)
+				}
+			}
+		}
 		// Ethereum-format transactions: a failed one costs its sender exactly the gas it is charged for (none when it is
 		// rejected before execution) - the value it wanted to move and the gas it only reserved stay with the sender.
 		// Checked for senders with a single transaction in the block that receive nothing in it.
